@@ -23,11 +23,18 @@
     a whole call, with the slot as left by the reported events, which themselves deliver nothing:
     `C09_events_deliver_exactly_none`), and `C09_call_delivers_reachable` for the states reached
     from `Framework::new` with validated machines by any history of calls.
+  * The slot is a function of the log (`Proofs/SigSlot.lean`): `C09_slot_tracks_log` (the slot after
+    the reported events is the fold of `sigStep` over `signalsIn l`, the machines of the
+    `sampled _ _ STATE_SIGNAL` entries of the call's log segment `l` in chronological order),
+    `C09_answered_iff_logged` (the first round leaves a signal pending iff its segment records such an
+    entry), `C09_lone_or_many` (empty / `allExcept x` / `all` iff nobody / only `x` / two distinct
+    machines signalled), and the property in log terms only: `C09_call_delivers_log`.
   The implementation is tied to this by the correspondence of the full internal log (tag L) and by
   the monitor `C09.monitor` on the implementation's traces.
 -/
 import MbVerif.Proofs.SigCount
 import MbVerif.Proofs.SigDeliver
+import MbVerif.Proofs.SigSlot
 import MbVerif.Props.C01
 import MbVerif.Proofs.C04
 
@@ -145,6 +152,61 @@ theorem C09_call_delivers_reachable (ms : List Machine) (hms : C01.MachinesValid
     have h2 := run_machines (init_run ρ ms fp fb t0 rng)
     exact h1.trans h2
   exact C09_call_delivers ρ es t s j hV.lenRt (by rw [hV.lenRt, hm]; exact hj)
+
+/-! ### the property in terms of the log only -/
+
+/-- The pending slot after the reported events of a call is the slot at the start of the call stepped
+    by the machines that transitioned to the signal pseudo-state, as recorded in the call's log. -/
+theorem C09_slot_tracks_log (es : List TEvent) (t : Int) (s : Fw σ) :
+    ∃ l, (eventsDone ρ es t s).log = l ++ s.log ∧
+      (eventsDone ρ es t s).signalPending = (signalsIn l).foldl sigStep s.signalPending :=
+  slot_tracks_log ρ es t s
+
+/-- The first delivery round leaves a signal pending iff its log segment records a transition to the
+    signal pseudo-state, i.e. iff some machine answered a delivered Signal by signalling. -/
+theorem C09_answered_iff_logged (s : Fw σ) (excluded : Option Nat) :
+    ∃ l, (afterFirst ρ s excluded).log = l ++ s.log ∧
+      ((afterFirst ρ s excluded).signalPending.isSome = true ↔ signalsIn l ≠ []) :=
+  afterFirst_answered ρ s excluded
+
+theorem C09_lone_or_many (ids : List Nat) :
+    (ids.foldl sigStep none = none ↔ ids = []) ∧
+    (∀ x, ids.foldl sigStep none = some (.allExcept x) ↔ ids ≠ [] ∧ ∀ i ∈ ids, i = x) ∧
+    (ids.foldl sigStep none = some .all ↔ ∃ a ∈ ids, ∃ b ∈ ids, a ≠ b) := lone_or_many ids
+
+/-- **C09 on the log.** Let `ids0` be the signallers carried over from the previous call (the slot at
+    the start is `ids0.foldl sigStep none`: `[]` for an empty slot, `[x]` for `allExcept x`), `l1` the
+    log segment of the reported events, and `ids := ids0 ++ signalsIn l1` all machines that
+    transitioned to the signal pseudo-state, with repetitions. For every existing machine `j`:
+    nobody signalled: `j` receives no Signal; two distinct machines signalled: exactly one;
+    only `x` signalled (however often): every `j ≠ x` exactly one, and `x` exactly one if the log
+    segment `l2` of the first delivery round records a signalling transition, none otherwise. -/
+theorem C09_call_delivers_log (es : List TEvent) (t : Int) (s : Fw σ) (j : Nat)
+    (hlen : s.rt.length = s.machines.length) (hj : j < s.rt.length)
+    (ids0 : List Nat) (h0 : s.signalPending = ids0.foldl sigStep none) :
+    ∃ l1, (eventsDone ρ es t s).log = l1 ++ s.log ∧
+      (ids0 ++ signalsIn l1 = [] → sigOf j (triggerEvents ρ es t s) = sigOf j s) ∧
+      ((∃ a ∈ ids0 ++ signalsIn l1, ∃ b ∈ ids0 ++ signalsIn l1, a ≠ b) →
+        sigOf j (triggerEvents ρ es t s) = sigOf j s + 1) ∧
+      (∀ x, ids0 ++ signalsIn l1 ≠ [] → (∀ i ∈ ids0 ++ signalsIn l1, i = x) →
+        (j ≠ x → sigOf j (triggerEvents ρ es t s) = sigOf j s + 1) ∧
+        (j = x → ∃ l2, (afterFirst ρ (eventsDone ρ es t s) (some x)).log = l2 ++ (eventsDone ρ es t s).log ∧
+          sigOf j (triggerEvents ρ es t s) = sigOf j s + (if signalsIn l2 = [] then 0 else 1))) := by
+  obtain ⟨l1, e1, p1⟩ := slot_tracks_log ρ es t s
+  rw [h0, sigStep_fold_from] at p1
+  obtain ⟨c1, c2, c3⟩ := lone_or_many (ids0 ++ signalsIn l1)
+  obtain ⟨d1, d2, d3⟩ := C09_call_delivers ρ es t s j hlen hj
+  refine ⟨l1, e1, fun h => d1 (p1.trans (c1.mpr h)), fun h => d2 (p1.trans (c3.mpr h)), fun x hne hall => ?_⟩
+  obtain ⟨f1, f2⟩ := d3 x (p1.trans ((c2 x).mpr ⟨hne, hall⟩))
+  refine ⟨f1, fun hjx => ?_⟩
+  obtain ⟨l2, e2, a2⟩ := afterFirst_answered ρ (eventsDone ρ es t s) (some x)
+  refine ⟨l2, e2, ?_⟩
+  rw [f2 hjx]
+  by_cases hl : signalsIn l2 = []
+  · have : ¬ (afterFirst ρ (eventsDone ρ es t s) (some x)).signalPending.isSome = true := fun h => (a2.mp h) hl
+    simp [hl, this]
+  · have : (afterFirst ρ (eventsDone ρ es t s) (some x)).signalPending.isSome = true := a2.mpr hl
+    simp [hl, this]
 
 /-- Non-vacuity: machine 2 signalling three times keeps excluding machine 2; machines 2 and 0 give `all`. -/
 example : [2, 2, 2].foldl sigStep none = some (.allExcept 2) := by decide
